@@ -21,6 +21,19 @@ let jproof j : claim_proof =
   { p_nodes = SL.map jnode (jlist (jfield j "nodes")); p_txhash = jtext_opt j "txhash"; p_nout = jz_opt j "nOut";
     p_takeover = jz_opt j "last takeover height" }
 
+(* cache + header list state machine (Model/C08_Cache.v) *)
+let jwop j : wop =
+  match jstr (jfield j "op") with
+  | "request" ->
+      OpRequest (jbytes (jfield j "key"), jbytes (jfield j "raw"), jz (jfield j "height"),
+                 jopt jresp (jfield j "arg"), jresp (jfield j "net"))
+  | "extend" -> OpExtend (jhexlist (jfield j "headers"))
+  | "reorg" -> OpReorg (jnat (jfield j "fork"), jhexlist (jfield j "headers"))
+  | o -> raise (Model_error ("unknown op " ^ o))
+let of_txst hit (st : tx_state) out =
+  JObj [ "hit", of_bool hit; "height", of_z st.t_height; "position", of_z st.t_position;
+         "verified", of_bool st.t_verified; "outcome", out ]
+
 let () = serve (fun fn req ->
   match fn with
   | "hexlify" -> JStr (string_of_bytes (hexlify (jbytes (jfield req "b"))))
@@ -55,6 +68,14 @@ let () = serve (fun fn req ->
           (jz (jfield req "height")) arg net in
       JObj [ "height", of_z st1.t_height; "position", of_z st1.t_position; "verified", of_bool st1.t_verified;
              "outcome", of_outcome out; "fetched", of_bool fetched ]
+  | "cache_run" ->
+      let s0 = { w_headers = jhexlist (jfield req "headers"); w_cache = [] } in
+      let (s1, outs) = run (hash_of req) s0 (SL.map jwop (jlist (jfield req "ops"))) in
+      JObj [ "len", of_int (SL.length s1.w_headers);
+             "results", of_list (fun o -> match o with
+                 | None -> JNull
+                 | Some (Hit st) -> of_txst true st (JStr "tx")
+                 | Some (Fetched (st, out)) -> of_txst false st (of_outcome out)) outs ]
   | "claim_verify" ->
       (match verify_proof (hash_of req) (jproof (jfield req "proof")) (jtext (jfield req "root")) (jbytes (jfield req "name")) with
        | CpTrue -> JBool true | CpInvalid -> JStr "invalid" | CpOther -> JStr "other")
